@@ -29,6 +29,11 @@ func Buffered[T any](s Stream[T], size int) Stream[T] {
 		func(ctx context.Context) (T, error) {
 			r, err := bufferChanStream.provider(ctx)
 			if err != nil {
+				if err == io.EOF && ctx.Err() != nil {
+					// The buffer channel was closed without the EOF marker, this happens only when the buffering
+					// goroutine was cancelled: remaining elements were not delivered, so this is not a proper end of stream
+					return util.DefaultValue[T](), ctx.Err()
+				}
 				return util.DefaultValue[T](), err
 			}
 			// Unpack the result from the buffer channel to the original type, upstream error or the EOF marker
